@@ -352,7 +352,10 @@ func (g *c08Gen) gap(o *c08LayoutOpt) []c08Skip {
 	return out
 }
 
-type c08Gen struct{ c *Ctx }
+type c08Gen struct {
+	c         *Ctx
+	longEvery int // one in longEvery random layouts pads a line past the reader buffer
+}
 
 // split v at a random subset of its single blanks (a ' ' whose neighbours are not white space)
 func (g *c08Gen) pieces(v string, p float64) []string {
@@ -437,7 +440,7 @@ func (g *c08Gen) layout(doc c08Doc, o c08LayoutOpt) *c08LDoc {
 			sl := cand[g.c.Rng.Intn(len(cand))]
 			if need := o.long - len(lines[sl.line]); need > 0 {
 				fill := " "
-				if g.c.Rng.Intn(4) == 0 {
+				if g.c.Rng.Intn(8) == 0 {
 					fill = "\t"
 				}
 				*sl.p = strings.Repeat(fill, need) + *sl.p
@@ -498,7 +501,7 @@ func (g *c08Gen) randomOpt(i int) c08LayoutOpt {
 		o.pads = []int{0, 2, 6, 40}[r.Intn(4)]
 		o.shuffle = r.Intn(2) == 0
 		o.finalNL = r.Intn(3) != 0
-		if r.Intn(3) == 0 {
+		if r.Intn(g.longEvery) == 0 {
 			o.long = c08LongTargets[r.Intn(len(c08LongTargets))]
 			o.longLast = r.Intn(4) == 0
 			if o.longLast {
@@ -951,17 +954,29 @@ func c08ProbesSx(ps [][2]string) string {
 // ---------------------------------------------------------------------------- hostile texts
 
 var c08HostileAlphabet = []string{"[", "]", "=", "#", ";", "\\", "\n", "\n", "\r", "\r\n", " ", "\t", ",", "(", ")", ".", "r", "p", "m", "e", "g",
-	"2", "_", "in", "\x00", "\xff", "\xc2", "\x85", "\xa0", "\u00e9", "\u00a0", "\u2003", "\v", "\f", "a", "request_definition", "matchers", "\\\n"}
+	"2", "_", "in", "\x00", "\xff", "\xc2", "\u00e9", "\v", "\f", "a", "request_definition", "matchers", "\\\n", "=", "\n", " "}
+
+// bytes that make Unicode white space (kept rare: such texts are run but not compared with the model)
+var c08UniAlphabet = []string{"\x85", "\xa0", "\u00a0", "\u2003", "\u0085", "\u3000"}
 
 var c08HostileLines = []string{
 	"[request_definition]", "[policy_definition]", "[role_definition]", "[policy_effect]", "[matchers]", "[]", "[", "]", "[x] # c", "[a]]", "[[b]",
 	"r = sub, obj, act", "r2 = a", "r3 = b", "p = sub, obj, act", "p2= x,y", "g = _, _", "g2 = _, _, (_, _)", "e = some(where (p.eft == allow))",
 	"m = r.sub == p.sub", "m = g(r.sub, p.sub) && \\", "  r.obj == p.obj \\", " && r.act in [a, b]", "[p.obj]", "m2 = eval(p.x)", "= v", "k =", "k", "\\", " \\ ",
 	"# c", "; c", "# c \\", "", "   ", "\t", "m = a # b \\", "m = a ; b", "m == b", "r = ", "e = x\\", "g = (", "g = )(", "g = _,(_,_,_,_)", "g = (,,,)",
-	"r = a,,b,", "p = ,", "m = in", "m = r.[x] in y", "m = domain[1]", "\xc2\xa0m = x", "m = x\xc2\x85", "m\u3000= x", "\r", "a=b\r", "\r[matchers]\r",
+	"r = a,,b,", "p = ,", "m = in", "m = r.[x] in y", "m = domain[1]", "\r", "a=b\r", "\r[matchers]\r", "m = x\xc2", "\xa0", "[request_definition]\r", "r = sub, obj\r",
 }
 
 func (g *c08Gen) hostile(examples []string, kind int) string {
+	t := g.hostile0(examples, kind)
+	if g.c.Rng.Intn(12) == 0 { // now and then a Unicode space somewhere
+		p := g.c.Rng.Intn(len(t) + 1)
+		t = t[:p] + g.pick(c08UniAlphabet) + t[p:]
+	}
+	return t
+}
+
+func (g *c08Gen) hostile0(examples []string, kind int) string {
 	r := g.c.Rng
 	switch kind {
 	case 0: // random bytes from a structural alphabet
@@ -1028,15 +1043,16 @@ const c08Examples = "/repo/examples"
 
 func init() {
 	register("C08", func(c *Ctx) {
-		g := &c08Gen{c}
+		g := &c08Gen{c, 3}
 		nExact, nLoose, nGen, nHostile := 32, 6, 30, 2500
 		if c.Thorough() {
-			nExact, nLoose, nGen, nHostile = 300, 40, 150, 40000
+			nExact, nLoose, nGen, nHostile = 300, 40, 120, 40000
+			g.longEvery = 8
 		}
 		c.Rule = fmt.Sprintf("documents = every %s/**/*.conf (read at run time, turned into sections/keys/values by a small reference reader) + %d generated documents "+
 			"(standard and foreign sections, r/p/g/e/m values from a token grammar incl. '=' '[' ']' '\\' quotes, numbering gaps, duplicate keys, empty values, duplicate sections); "+
 			"each rendered under %d layouts of the theorem's family (indentation, blanks round '=', trailing blanks incl. \\t \\v \\f \\r, blank/';'/'#' lines between definitions, "+
-			"backslash continuation at random subsets of the single blanks up to every one, CRLF, section order, with/without final newline; layouts 1-4 and 7 and a third of the others pad one "+
+			"backslash continuation at random subsets of the single blanks up to every one, CRLF, section order, with/without final newline; layouts 1-4 and 7 and one in "+fmt.Sprint(g.longEvery)+" of the others pad one "+
 			"physical line to exactly 4096 / just over 4096 / over 8192 bytes, also as last line without terminator) and %d loose layouts (blank runs inside r/p/g/m values stretched, also past 4096 bytes, "+
 			"blanks inserted at commas and && ||); plus %d hostile texts (random bytes, line soups, mutated examples). Every text goes through the real NewConfigFromText / NewModelFromString and through the extracted Coq model; "+
 			"non-trivial = a layout case that differs from the plain rendering (id counted once)", c08Examples, nGen, nExact, nLoose, nHostile)
